@@ -233,7 +233,23 @@ fn touch_fmt(r: &Result<V, E>) {
     std::hint::black_box(s);
 }
 
+// a tree that is either built for this step or the one stored by an earlier `pre` step
+enum NodeRef<'a> {
+    Own(Node<DefaultNumericTypes>),
+    Ref(&'a Node<DefaultNumericTypes>),
+}
+impl<'a> std::ops::Deref for NodeRef<'a> {
+    type Target = Node<DefaultNumericTypes>;
+    fn deref(&self) -> &Self::Target {
+        match self {
+            NodeRef::Own(n) => n,
+            NodeRef::Ref(n) => n,
+        }
+    }
+}
+
 struct Script {
+    stored: Option<Result<Node<DefaultNumericTypes>, E>>,
     ctx: AnyCtx,
     rec: Recorder,
     fn_names: Vec<String>,
@@ -251,7 +267,7 @@ impl Script {
             "N" => AnyCtx::N(NoStore(Ctx::new())),
             k => panic!("bad ctx kind {}", k),
         };
-        Script { ctx, rec: Recorder::default(), fn_names: vec![], var_names: vec![], clones: vec![], flags: vec![] }
+        Script { stored: None, ctx, rec: Recorder::default(), fn_names: vec![], var_names: vec![], clones: vec![], flags: vec![] }
     }
 
     fn note_var(&mut self, n: &str) {
@@ -266,6 +282,11 @@ impl Script {
     }
 
     fn eval_entry(&mut self, entry: &str, src: &str, on_clone: bool) -> String {
+        self.eval_entry_with(entry, src, on_clone, false)
+    }
+
+    // use_stored: evaluate the tree precompiled by the last `pre` step (the SAME Node object every time)
+    fn eval_entry_with(&mut self, entry: &str, src: &str, on_clone: bool, use_stored: bool) -> String {
         if entry == "build" {
             return match build_operator_tree::<DefaultNumericTypes>(src) {
                 Ok(n) => {
@@ -280,7 +301,14 @@ impl Script {
         }
         let cs: Vec<char> = entry.chars().collect();
         let (lvl, mode, ty) = (cs[0], cs[1], cs[2]);
-        let node = || build_operator_tree::<DefaultNumericTypes>(src);
+        let taken = if use_stored { self.stored.take() } else { None };
+        let node = || -> Result<NodeRef, E> {
+            match &taken {
+                Some(Ok(n)) => Ok(NodeRef::Ref(n)),
+                Some(Err(e)) => Err(e.clone()),
+                None => build_operator_tree::<DefaultNumericTypes>(src).map(NodeRef::Own),
+            }
+        };
         let r: Result<V, E> = match mode {
             'f' => entry_free(lvl, ty, src),
             'r' => match &self.ctx {
@@ -306,10 +334,18 @@ impl Script {
                         entries_mut!(c, lvl, ty, src, node())
                     }
                 },
-                _ => return "NA".to_string(),
+                _ => {
+                    if use_stored {
+                        self.stored = taken;
+                    }
+                    return "NA".to_string();
+                },
             },
             _ => panic!("bad mode"),
         };
+        if use_stored {
+            self.stored = taken;
+        }
         touch_fmt(&r);
         result_text(&r)
     }
@@ -465,6 +501,19 @@ impl Script {
                 let src = unhex(f[2]);
                 self.eval_entry(f[1], &src, true)
             },
+            // precompile once, evaluate the stored tree later (several times, against whatever the context is then)
+            "pre" => {
+                let src = if f.len() > 1 { unhex(f[1]) } else { String::new() };
+                let r = build_operator_tree::<DefaultNumericTypes>(&src);
+                let out = match &r {
+                    Ok(_) => "OK".to_string(),
+                    Err(e) => format!("ERR {}", error_text(e)),
+                };
+                self.stored = Some(r);
+                out
+            },
+            "evp" => self.eval_entry_with(&format!("n{}", f[1]), "", false, true),
+            "evpc" => self.eval_entry_with(&format!("n{}", f[1]), "", true, true),
             "get" => {
                 let name = unhex(f[1]);
                 self.note_var(&name);
@@ -576,6 +625,34 @@ fn run_iter(src: &str) -> String {
                 others.push(format!("k{}:{}|{}|{}|{}", k, seen.join(","), cnt, last, folded));
             }
             let others = others.join(" ");
+            // more adaptors of std::iter::Iterator on the immutable and the mutable iterators
+            let dash = |o: Option<String>| o.unwrap_or_else(|| "-".into());
+            let mut ad = vec![];
+            ad.push(format!(
+                "nth:{}",
+                [0usize, 1, 2, 5].iter().map(|k| dash(n.iter().nth(*k).map(|x| op_text(x.operator())))).collect::<Vec<_>>().join(",")
+            ));
+            ad.push(format!("skipcnt:{}", [0usize, 1, 3].iter().map(|k| n.iter().skip(*k).count().to_string()).collect::<Vec<_>>().join(",")));
+            ad.push(format!("step2:{}", j(n.iter().step_by(2).map(|x| op_text(x.operator())).collect())));
+            ad.push(format!("idnth1:{}", dash(n.iter_identifiers().nth(1).map(hex))));
+            ad.push(format!("idskip1:{}", j(n.iter_identifiers().skip(1).map(hex).collect())));
+            ad.push(format!("idlast:{}", dash(n.iter_identifiers().last().map(hex))));
+            ad.push(format!("idcnt:{}", n.iter_variable_identifiers().count() + 100 * n.iter_function_identifiers().count()));
+            let mut mfe = vec![];
+            n.iter_operators_mut().for_each(|o| mfe.push(op_text(o)));
+            ad.push(format!("mfe:{}", mfe.join(",")));
+            ad.push(format!("mcnt:{}", n.iter_operators_mut().count()));
+            ad.push(format!("mlast:{}", dash(n.iter_operators_mut().last().map(|o| op_text(o)))));
+            ad.push(format!("mfold:{}", n.iter_operators_mut().fold(String::new(), |acc, o| acc + &op_text(o) + ";")));
+            ad.push(format!("mnth1:{}", dash(n.iter_operators_mut().nth(1).map(|o| op_text(o)))));
+            ad.push(format!("mskip2:{}", j(n.iter_operators_mut().skip(2).map(|o| op_text(o)).collect())));
+            let mut midfe = vec![];
+            n.iter_identifiers_mut().for_each(|s| midfe.push(hex(s)));
+            ad.push(format!("midfe:{}", midfe.join(",")));
+            ad.push(format!("midcnt:{}", n.iter_variable_identifiers_mut().count() + 100 * n.iter_function_identifiers_mut().count()));
+            ad.push(format!("midlast:{}", dash(n.iter_identifiers_mut().last().map(|s| hex(s)))));
+            ad.push(format!("midnth1:{}", dash(n.iter_read_variable_identifiers_mut().nth(1).map(|s| hex(s)))));
+            let adapt = ad.join("|");
             let ops = j(n.iter_operators_mut().map(|o| op_text(o)).collect());
             let am = j(n.iter_identifiers_mut().map(|s| hex(s)).collect());
             let bm = j(n.iter_variable_identifiers_mut().map(|s| hex(s)).collect());
@@ -589,18 +666,14 @@ fn run_iter(src: &str) -> String {
             for s in n.iter_write_variable_identifiers_mut() {
                 s.insert(0, 'w');
             }
-            for s in n.iter_function_identifiers_mut() {
-                s.insert(0, 'f');
-            }
-            for s in n.iter_variable_identifiers_mut() {
-                s.insert(0, 'v');
-            }
+            n.iter_function_identifiers_mut().fold((), |_, s| s.insert(0, 'f'));
+            n.iter_variable_identifiers_mut().for_each(|s| s.insert(0, 'v'));
             for s in n.iter_identifiers_mut() {
                 s.insert(0, 'i');
             }
             format!(
-                "OK ids[{}] vars[{}] reads[{}] writes[{}] fns[{}] nodes[{}] ops[{}] idsm[{}] varsm[{}] readsm[{}] writesm[{}] fnsm[{}] via<{}> renamed{}",
-                a, b, c, d, e, nodes, ops, am, bm, cm, dm, em, others, tree_text(&n)
+                "OK ids[{}] vars[{}] reads[{}] writes[{}] fns[{}] nodes[{}] ops[{}] idsm[{}] varsm[{}] readsm[{}] writesm[{}] fnsm[{}] via<{}> adapt<{}> renamed{}",
+                a, b, c, d, e, nodes, ops, am, bm, cm, dm, em, others, adapt, tree_text(&n)
             )
         },
     }
